@@ -15,9 +15,10 @@
 (* must be TRUE; every range those facts were computed over is logged and recomputed here.           *)
 (*                                                                                                 *)
 (* inp = [start, ivtOff, ils, appLen, flags, cfgKind, cfgLen, entry, ver, nSrk, srcIdx, fast,        *)
-(*        imgTgt, vfyIdx, macLen, dekLen, waive, xmcdKind]                                          *)
+(*        imgTgt, vfyIdx, macLen, dekLen, waive, xmcdKind, cfgVer, dcdCmds]                         *)
 (* inp.xmcdKind: "none" (no XMCD), a name of HabLayout!XmcdKinds (a block of that real kind was given  *)
 (* to the builder) or "raw" (a well-formed header + arbitrary configuration bytes of inp.cfgLen bytes). *)
+(* inp.cfgVer / inp.dcdCmds: version byte and command list [tag, len] of the DCD that was given (0 / << >> without a DCD).      *)
 (* inp.waive is empty when a trace is judged.  Only after a rejection whose finding key is listed as  *)
 (* KNOWN does the harness validate the same trace again with that one clause waived, so that a known  *)
 (* defect does not hide what comes after it (a further rejection is reported under its own key).      *)
@@ -52,7 +53,12 @@ BdNx(inp, s, e) == [s EXCEPT !.st = IF inp.cfgKind = "none" THEN "App" ELSE "Cfg
 
 DcdOK(inp, s, e) ==
   /\ s.st = "Cfg" /\ inp.cfgKind = "dcd"
-  /\ e.at = F(inp, s.ivt.dcd) /\ e.tag = 210 /\ e.len = inp.cfgLen /\ e.at + e.len <= s.fileLen    \* D2 len 4x
+  /\ e.at = F(inp, s.ivt.dcd) /\ e.len = inp.cfgLen /\ e.at + e.len <= s.fileLen                   \* D2 len 4x
+  \* what lies at the pointer is a DCD: tag, HAB major version 4, length = header + the commands one behind the other (each a DCD
+  \* command of a legal length); a pointer to bytes that are no DCD (e.g. fill bytes) is a rejection
+  /\ DcdWellFormed(e.tag, e.len, e.ver, e.cmds)
+  \* ... and it is the DCD that was given to the builder: its version byte (0x40 for HAB 4.0 parts, 0x41, ...), its commands, its bytes
+  /\ e.ver = inp.cfgVer /\ e.cmds = inp.dcdCmds
   /\ e.match                                                                 \* bytes at the pointer = the DCD given to the builder
 XmcdOK(inp, s, e) ==
   /\ s.st = "Cfg" /\ inp.cfgKind = "xmcd"
@@ -196,6 +202,8 @@ ParseBackOK(inp, s, e) ==
   \* the DCD / XMCD segment the parser recovers sits where the ROM read it and has its size; an XMCD comes back as the same kind
   /\ IF inp.cfgKind = "none" THEN e.cfgAt = -1 /\ e.cfgLen = 0
                              ELSE \E r \in s.cfg : e.cfgAt = r[1] /\ e.cfgAt + e.cfgLen = r[2]
+  \* a DCD comes back with the version and the number of commands the ROM read
+  /\ (inp.cfgKind = "dcd" => e.dVer = s.cfgEv.ver /\ e.dN = Len(s.cfgEv.cmds))
   /\ (inp.cfgKind = "xmcd" => e.xSize = s.cfgEv.size /\ e.xIface = s.cfgEv.iface /\ e.xInst = s.cfgEv.inst /\ e.xType = s.cfgEv.btype)
   /\ e.appAt = AppAt(inp) /\ e.nCmds = s.nCmds /\ e.cStart = inp.start /\ e.cIvtOff = inp.ivtOff
   /\ e.ivtEq /\ e.bdEq /\ (e.cfgEq \/ Waived(inp, "xmcdMatch")) /\ e.appEq /\ e.csfEq /\ e.reexpEq
